@@ -436,9 +436,15 @@ class Expander:
                     for (ps, pe, bs, be, blk) in arms:
                         pats.append(re.sub(r'(?m)//[^\n]*$', '', body_text[prev_:pe]).strip().lstrip(',').strip())
                         prev_ = be
-                    if not pats or pats[-1] != '_' or not all(re.fullmatch(r'"[^"]*"', x) for x in pats[:-1]):
+                    # (a pattern is one literal or an alternation of literals: "a" | "b")
+                    if not pats or pats[-1] != '_' or not all(re.fullmatch(r'"[^"]*"(\s*\|\s*"[^"]*")*', x) for x in pats[:-1]):
                         continue
                     var = scrut[:-len('.as_str()')]
+                    # a scrutinee that is not a plain place (a call such as `value.to_lowercase()`) is evaluated once, into a local
+                    bind = ''
+                    if not re.fullmatch(r'[\w.]+', var.strip()):
+                        bind = 'let vx_scrutinee = %s; ' % var.strip()
+                        var = 'vx_scrutinee'
                     parts = []
                     for (ps, pe, bs, be, blk), pat in zip(arms, pats):
                         btxt = body_text[bs:be]
@@ -447,8 +453,10 @@ class Expander:
                         if pat == '_':
                             parts.append(btxt)
                         else:
-                            parts.append('if vx_str_eq(&%s, %s) %s else ' % (var, pat, btxt))
-                    body_text = body_text[:m.start()] + ''.join(parts) + body_text[mc + 1:]
+                            lits = re.findall(r'"[^"]*"', pat)
+                            cond = ' || '.join('vx_str_eq(&%s, %s)' % (var.strip(), l) for l in lits)
+                            parts.append('if %s %s else ' % (cond, btxt))
+                    body_text = body_text[:m.start()] + ('{ ' + bind if bind else '') + ''.join(parts) + (' }' if bind else '') + body_text[mc + 1:]
                     self.rules_fired['E4-strmatch'] = self.rules_fired.get('E4-strmatch', 0) + 1
                     done = False
                     break
